@@ -103,6 +103,10 @@ def main():
                             print('        ', f[:230])
                 if update:
                     meta['alarms_now'] = fired + [b + '(broken)' for b in broken]
+                    if not meta.get('checks'):
+                        # first run of a newly stored patch: this is its first-run record
+                        meta['alarms'] = meta['alarms_now']
+                        meta['checks'] = res
             else:
                 own = meta.get('breaks_property')
                 ok = own in fired and not broken
